@@ -48,6 +48,12 @@ Theorem C14_payload_len_le_max : forall pver mmp ebs m,
   len (enc_payload pver m) <= max_payload (kind_of m) pver ebs.
 Proof. exact payload_len_le_max. Qed.
 
+(* the same as a table: the longest well-formed payload per kind and version (the oracle applied to the
+   implementation's own MaxPayloadLength table) is within the model's limit table *)
+Theorem C14_max_wf_le_limit : forall k pver ebs n,
+  max_wf_payload_len k pver = Some n -> n <= max_payload k pver ebs.
+Proof. exact max_wf_le_limit. Qed.
+
 (* hence WriteMessage does not refuse it, and write-then-read returns it, whenever the global maximum is
    not below the type's limit (holds for cmd/main.go's limits: WireLenProofs.write_ok_example) *)
 Theorem C14_frame_roundtrip_total : forall pver net ebs m rest,
@@ -143,6 +149,7 @@ Print Assumptions C14_reencode.
 Print Assumptions C14_reencode_canonical.
 Print Assumptions C14_frame_roundtrip.
 Print Assumptions C14_payload_len_le_max.
+Print Assumptions C14_max_wf_le_limit.
 Print Assumptions C14_frame_roundtrip_total.
 Print Assumptions C14_dec_payload_suffix.
 Print Assumptions C14_read_message_consumes.
